@@ -32,6 +32,7 @@ META = {
 def check(fx, rep, tier):
     rep.rule('R04.1', 'decode target of receive_reply: untagged enum; attempts ordered standard error, caller error, catch-all, success (last)')
     rep.rule('R04.2', 'an object with an `error` member cannot reach the success shape: catch-all with required any-value `error` member before it, or success type denies unknown members')
+    rep.rule('R04.5', 'the catch-all accepts every object with an `error` member, also one that repeats it: a derived struct does not (duplicate field) - a hand-written visitor over all members does')
     rep.rule('R04.3', 'the success shape Reply<_> is decoded nowhere else in the connection code (no bypass of the classification)')
     rep.rule('R04.4', 'match arms: standard error -> Err(VarlinkService), caller error -> Ok(Err), catch-all -> Err, success -> Ok(Ok), each with its own payload')
     for cfg in ['full'] + (['ws', 'nostd'] if tier == 'thorough' else []):
@@ -111,6 +112,63 @@ def check(fx, rep, tier):
                            'accepts_any_json_value': anyv}
                     if anyv and not fi['optional'] and not fi['default'] and 'default' not in sa and 'Deserialize' in SS.derives(st):
                         guard_ok = True
+        # R04.5 the catch-all is total over objects that carry `error` - also when the member is repeated
+        import ast as A
+        for name, role, ty in roles[:succ_i]:
+            if role != 'other':
+                continue
+            st = synt.get(ty.split('::')[-1])
+            if not st or st.get('k') != 'struct':
+                continue
+            short_ca = ty.split('::')[-1]
+            if 'Deserialize' in SS.derives(st):
+                rep.bad('R04.5', '%s|catch-all-total|derived|%s' % (fk, cfg), '%s:%s' % (co.file, st.get('line')),
+                        'the catch-all %s is a derived struct: serde\'s derived visitor rejects an object that repeats the `error` member (duplicate field), so '
+                        '`{"error":"io.systemd.System","error":"x"}` falls through to the success shape and is reported as a successful reply' % short_ca,
+                        {'catch_all': short_ca})
+                continue
+            vm = [(f, n, impl) for f, n, impl in A.all_fns(fx.tpl, 'connection/read_connection.rs') if n['name'] == 'visit_map']
+            des = [(f, n, impl) for f, n, impl in A.all_fns(fx.tpl, 'connection/read_connection.rs')
+                   if n['name'] == 'deserialize' and impl and (impl.get('self_ty') or '') == short_ca and 'Deserialize' in (impl.get('trait') or '')]
+            why = []
+            if len(vm) != 1 or len(des) != 1:
+                why.append('expected one hand-written Deserialize impl of %s with one visit_map, found %d / %d' % (short_ca, len(des), len(vm)))
+            else:
+                f, n, impl = vm[0]
+                loops = [x for x in n['body'] if isinstance(x, dict) and (x.get('expr') or x).get('k') == 'while']
+                loops = [(x.get('expr') or x) for x in loops]
+                if len(loops) != 1 or 'next_key' not in (loops[0].get('cond') or ''):
+                    why.append('visit_map is not one `while let Some(key) = map.next_key()?` loop over all members')
+                else:
+                    lp = loops[0]
+                    inner = list(A.nodes(lp.get('body')))
+                    if any(x.get('k') in ('return', 'break') or (x.get('k') == 'call' and x.get('func') == 'Err') for x in inner):
+                        why.append('the member loop can stop early or fail on its own')
+                    cmpn = [x for x in inner if x.get('k') == 'binary' and x.get('op') == '==' and any(isinstance(y, dict) and y.get('k') == 'str' and y.get('value') == 'error' for y in (x.get('l'), x.get('r')))]
+                    flags = set()
+                    for x in inner:
+                        if x.get('k') == 'binary' and x.get('op') in ('|=', '=') and isinstance(x.get('l'), dict) and x['l'].get('k') == 'path':
+                            flags.add(x['l'].get('text'))
+                    if not cmpn or not flags:
+                        why.append('no member-name comparison with "error" recorded in a flag')
+                    if not any(x.get('k') == 'mcall' and x.get('method') == 'next_value' for x in inner):
+                        why.append('member values are not consumed')
+                    tails = [x.get('expr') or x for x in n['body'] if isinstance(x, dict) and (x.get('expr') or x).get('k') == 'if']
+                    ok_tail = any((tl.get('cond') or '').strip() in flags and any(y.get('k') == 'call' and y.get('func') == 'Ok' for y in A.nodes(tl.get('then'))) for tl in tails)
+                    if not ok_tail:
+                        why.append('Ok is not returned exactly when the flag is set')
+                # value type: every next_value is instantiated with an any-value type
+                for b2 in crate.bodies:
+                    if b2.path.startswith(co.path.split('::{')[0]) and b2.name == 'visit_map':
+                        for blk, tm in b2.iter_terms('call'):
+                            if tm['callee'].get('name') == 'next_value' and not any(a in (tm['callee'].get('args') or '') for a in ANY_VALUE):
+                                why.append('a member value is decoded as %s' % tm['callee'].get('args'))
+            rep.check(not why, 'R04.5', '%s|catch-all-total|hand-written|%s' % (fk, cfg), '%s:%s' % (co.file, st.get('line')),
+                      'the catch-all %s visits every member, ignores the values, and succeeds exactly when a member named `error` was seen (repeated members included)' % short_ca,
+                      'the hand-written catch-all %s is not total over objects with an `error` member: %s' % (short_ca, '; '.join(why)))
+            if not why:
+                guard_ok = True
+                det = {'catch_all': name, 'idiom': 'hand-written visitor over all members'}
         reply_items = [it for fn, it in fx.tpl.items('zlink-core/src/reply.rs', 'struct') if it.get('name') == 'Reply']
         denies = bool(reply_items) and 'deny_unknown_fields' in SS.container(reply_items[0])
         det['success_type_denies_unknown_members'] = denies
